@@ -14,8 +14,10 @@ succeeds and `regexec` answers `Matches e`.  The correspondence run validates th
 namespace Muscle.Wildcard
 open Muscle
 
-/-- characters that `SetPattern` keeps a backslash in front of (`strchr(".[]()*+?{}|^$\\", c)`): the ERE
-    special characters -/
+/-- the ERE special characters: written `\c` when meant literally (a backslash in front of any *other* character is
+    undefined in POSIX and means something else to glibc).  This is part of the specification of ERE syntax, fixed
+    here; that `SetPattern` keeps the backslash in front of exactly these is lemma `keepsBackslash_eq`, re-checked
+    against the list regenerated from the C++ source. -/
 def ereSpecial (c : UInt8) : Bool :=
   c == cDot || c == cLBr || c == cRBr || c == cLPar || c == cRPar || c == cStar || c == cPlus || c == cQm
     || c == cLBrace || c == cRBrace || c == cBar || c == cCaret || c == cDollar || c == cBs
